@@ -34,7 +34,7 @@ RULE = ("seeded (period, max_age in {1,1.5,3,10}, initial/max buffer lengths {1,
 REQUIRED_BUCKETS = ["tick-nonempty", "tick-empty(None)", "sample-exactly-T", "sample-exactly-T-minus-age",
                     "future-sample-excluded", "old-sample-excluded", "none-or-nan-input", "zero-valued-input", "input-period-estimated",
                     "buffer-resized", "buffer-evicted", "upsampling", "downsampling", "silence>max-age",
-                    "default-resampling-function", "infinite-valued-input", "samples-stamped-in-a-non-utc-zone", "equal-timestamps", "series-share-a-name", "function-result-NaN"]
+                    "default-resampling-function", "upsampling-buffer-size-checked", "infinite-valued-input", "samples-stamped-in-a-non-utc-zone", "equal-timestamps", "series-share-a-name", "function-result-NaN"]
 REQUIRED_COUNTERS = ["ticks_compared", "function_calls_observed", "input_period_estimates_checked"]
 ASSUMPTIONS = ["time-ordered inputs; virtual clock"]
 
@@ -142,6 +142,14 @@ def check(case: dict[str, Any], rec: Any) -> None:
                         if abs(sps - est) > 2e-6:
                             rec.violation("input-period-estimate-differs-from-elapsed-time/received-samples",
                                           {**w0, "expected_seconds": est, "received": ai, "first_sample": str(arr[0]["ts"])})
+                if sp > per:
+                    # up-sampling: the documented size is max_data_age_in_periods *input* periods, counted in seconds
+                    # (one sample per second of that span), within [1, max_buffer_len]
+                    need = min(case["max_len"], max(1, math.ceil(sps * age)))
+                    rec.bucket("upsampling-buffer-size-checked")
+                    if cap != need:
+                        rec.violation("upsampling-buffer-size-differs-from-the-documented-rule", {**w0, "documented": need})
+                        break
                 if sp <= per:
                     # down-sampling: the buffer must hold max_age resampling periods of data at the input rate
                     need = min(case["max_len"], max(1, math.ceil(age * p / sps - 1e-9)))
